@@ -279,14 +279,26 @@ def run(prog, tier):
 def _cmp_is(test, opname, left_text, right_const):
     """test is `(<left> OP const).any()`-like or the bare comparison."""
     node = test
+    neg = False
+    while isinstance(node, ast.UnaryOp) and isinstance(node.op, ast.Not):
+        node, neg = node.operand, not neg
+    red = None
     if isinstance(node, ast.Call) and isinstance(node.func, ast.Attribute) and node.func.attr in ("any", "all"):
+        red = node.func.attr
         node = node.func.value
     if isinstance(node, ast.Compare) and len(node.ops) == 1:
         try:
             rc = ast.literal_eval(node.comparators[0])
         except Exception:
             return False
-        return type(node.ops[0]).__name__ == opname and U(node.left) == left_text and rc == right_const
+        op = type(node.ops[0]).__name__
+        if U(node.left) != left_text or rc != right_const:
+            return False
+        # "some coordinate is out of support":  (x OP c).any()   or   not (x co-OP c).all()   (a bare comparison is a single coordinate)
+        CO = {"Lt": "GtE", "Gt": "LtE", "LtE": "Gt", "GtE": "Lt"}
+        if not neg:
+            return op == opname and red in (None, "any")
+        return op == CO.get(opname) and red in (None, "all")
     return False
 
 
